@@ -36,3 +36,18 @@ open NASim.Load
 not a string) raises or yields something the following tuple unpacking / validity test refuses -/
 def evalAddr (k : Y) : Option (Int × Int) := match k with | .str s => parsePair s | _ => none
 end NASim.PyRt
+
+namespace NASim.PyRt
+open NASim.Load
+/-- `k in e` / `e[k]` / `e[k] = v` on a YAML dictionary with a string key -/
+def ymapHas (e : Y) (k : String) : Bool := (getKey (mapOf e) k).isSome
+def ymapGet (e : Y) (k : String) : Y := (getKey (mapOf e) k).getD .null
+def ymapSet (e : Y) (k : String) (v : Y) : Y :=
+  .map (if (mapOf e).any (fun p => p.1.pyEq (.str k)) then (mapOf e).map (fun p => if p.1.pyEq (.str k) then (p.1, v) else p)
+        else mapOf e ++ [(.str k, v)])
+/-- `str(x).lower() == "none"` -/
+def lowerIsNone (x : Y) : Bool := match x with | .str s => isNoneWord s | .null => true | _ => false
+def _root_.NASim.Load.Y.isNull : Y → Bool | .null => true | _ => false
+/-- `x <= k` for a number `k` (refused for non-numbers: rejection) -/
+def yle (x : Y) (k : Int) : Bool := match x.toRat? with | some q => decide (q ≤ (k : Rat)) | none => false
+end NASim.PyRt
